@@ -533,6 +533,7 @@ fn vm_case_inner(out: &mut Out, c: VmCase, class: &str) {
     let setup = coq_list(&c.setup.iter().map(|s| match s {
         Setup::GrowStack(n) => format!("SGrowStack {n}"),
         Setup::GrowHeap(n) => format!("SGrowHeap 0 {n}"),
+        Setup::Write(a, d) if d.len() > 8 && d.iter().all(|x| *x == d[0]) => format!("SWrite {a} (rep {} {})", d[0], d.len()),
         Setup::Write(a, d) => format!("SWrite {a} {}", coq_bytes(d)),
     }).collect::<Vec<_>>());
     let ins = match &c.instr {
@@ -629,7 +630,7 @@ fn part_b(args: &Args, out: &mut Out, rng: &mut Rng) {
             let b = VmCase { setup: s, ssp, sp: ssp, ..base.clone() };
             for &off in &[0u64, 1, l.saturating_sub(1), l, l + 1, 1 << 32, u64::MAX] {
                 for &len in &[0u64, 1, 7, 8, 9, l, l + 1, l + 8, 88, 89, 96, 97, 104] {
-                    if rng.chance(1, 5) {
+                    if rng.chance(1, 8) {
                         vm_case(out, VmCase { instr: Instr::Ldc { a: id_c, b: off, c: len, mode: 0 }, ..b.clone() }, "ldc0");
                         vm_case(out, VmCase { instr: Instr::Ldc { a: id_b, b: off, c: len, mode: 1 }, ..b.clone() }, "ldc1");
                         // mode 2: source in the stack below ssp / in the heap / overlapping the destination
